@@ -1316,6 +1316,11 @@ class ABCPropertyGraph(ABCPropertyGraphConstants):
         self.add_node(node_id=interface.node_id, label=ABCPropertyGraph.CLASS_ConnectionPoint, props=props)
         if parent_node_id is not None:
             self.add_link(node_a=parent_node_id, rel=ABCPropertyGraph.REL_CONNECTS, node_b=interface.node_id)
+        # sub-interfaces of a dedicated port hang off the port itself
+        ii = getattr(interface, 'interface_info', None)
+        if ii is not None:
+            for child in ii.interfaces.values():
+                self.add_interface_sliver(parent_node_id=interface.node_id, interface=child)
 
     def get_all_ns_or_link_connection_points(self, link_id: str) -> List[str]:
         """
